@@ -179,9 +179,13 @@ def t_injectible_self_application(rng):
   """Non-concrete F(x) = Op{y * x :- y in [..]} applied to its own result: F(F(a)), F(a) + F(F(a)) ..."""
   prog = Program()
   fact_pred(prog, rng, 'A', 1, rng.randint(1, 3), (1, 2, 3))
-  op = rng.choice(['Sum', 'Max', 'Min'])
+  # Sum shows a captured local variable for every list; Max / Min need a list of mixed signs under `*`
+  op = rng.choice(['Sum', 'Sum', 'Max', 'Min'])
   lst = [rng.choice([1, 2, 3]) for _ in range(rng.randint(2, 3))]
   arith = rng.choice(['*', '+'])
+  if op != 'Sum':
+    lst = [-2, rng.choice([1, 3])] + lst[:1]
+    arith = '*'
 
   def f_model(arg, k):
     y = 'yinl%d' % k
